@@ -121,7 +121,8 @@ def translators(repo):
 # ---------------------------------------------------------------------------------------
 # generation
 OPS_W = [("set", 24), ("get", 12), ("getd", 8), ("del", 8), ("pop", 5), ("popd", 5), ("popitem", 5),
-         ("clear", 2), ("setdefault", 8), ("update", 7), ("ior", 3), ("eq", 3), ("eqself", 1), ("copy", 5)]
+         ("clear", 2), ("setdefault", 8), ("update", 7), ("ior", 3), ("eq", 3), ("eqself", 1), ("copy", 5),
+         ("len", 7), ("in", 8)]
 
 
 def _gen_op(rng, nkeys, vctr):
@@ -135,11 +136,11 @@ def _gen_op(rng, nkeys, vctr):
         return 1 + (vctr[0] % 45)
     if name == "set":
         return ["set", k, v()]
-    if name in ("get", "del", "pop"):
+    if name in ("get", "del", "pop", "in"):
         return [name, k]
     if name in ("getd", "popd", "setdefault"):
         return [name, k, v()]
-    if name in ("popitem", "clear", "eqself", "copy"):
+    if name in ("popitem", "clear", "eqself", "copy", "len"):
         return [name]
     if name in ("update", "ior"):
         ks = [rng.randrange(nkeys) for _ in range(rng.randint(0, 3))]
@@ -160,7 +161,8 @@ def _gen_op(rng, nkeys, vctr):
 def _gen_program(rng, tier):
     kind = rng.choice(["LRI", "LRU"])
     mx = rng.choice([1, 2, 2, 3, 3, 4])
-    nkeys = mx + rng.choice([1, 2])
+    # few keys, many repeats; a third of the cases fight over 2 keys only (check-then-act races)
+    nkeys = 2 if rng.random() < 0.33 else mx + rng.choice([1, 2])
     vctr = [rng.randrange(40)]
     init = []
     for _ in range(rng.choice([0, mx - 1, mx, mx, mx + 1])):
